@@ -23,6 +23,7 @@ import (
 	"strconv"
 	"strings"
 	"time"
+	"unicode/utf8"
 	. "verif/harness/hlib"
 
 	"github.com/open2b/scriggo/native"
@@ -427,6 +428,36 @@ func dupKeyText(v reflect.Value, depth int) bool {
 	return false
 }
 
+// topKeysSorted reports whether the member names of the top level object of a JSON
+// text are in increasing byte order (true when the text is not an object or not JSON).
+func topKeysSorted(out string) bool {
+	dec := json.NewDecoder(strings.NewReader(out))
+	tok, err := dec.Token()
+	if err != nil || tok != json.Delim('{') {
+		return true
+	}
+	prev, first := "", true
+	for dec.More() {
+		k, err := dec.Token()
+		if err != nil {
+			return true
+		}
+		name, ok := k.(string)
+		if !ok {
+			return true
+		}
+		if !first && name < prev {
+			return false
+		}
+		prev, first = name, false
+		var skip json.RawMessage
+		if err := dec.Decode(&skip); err != nil {
+			return true
+		}
+	}
+	return true
+}
+
 // sameData compares two decoded JSON trees; numbers as float64, a node {__date: ms}
 // of the JavaScript side against an RFC 3339 string of the expected side.
 func sameData(got, want any) bool {
@@ -699,6 +730,10 @@ func init() {
 						fail("accepted-but-not-rendered", d)
 						continue
 					}
+					if ty.typ.Kind() == reflect.Map && utf8.ValidString(out) && !topKeysSorted(out) {
+						fail("map-keys-not-sorted", d)
+						continue
+					}
 					dvv := dv
 					if hasTrusted(v, 0) {
 						dvv = "trusted"
@@ -762,6 +797,12 @@ func init() {
 				} else {
 					fail("js-not-an-expression", jc.detail)
 				}
+				continue
+			}
+			if strings.Contains(r, `"__undefined"`) {
+				// an accepted value was written as undefined/* cannot represent */
+				jc.detail["node"] = r
+				fail("js-undefined-value", jc.detail)
 				continue
 			}
 			if jc.known != "" && !isRepro {
